@@ -60,6 +60,8 @@ class Unencodable(object):
 
 
 UNENC = Unencodable()
+# an int sqlite cannot bind (wider than 64 bits): fails with OverflowError, which is not an sqlite3.Error
+BIGINT = 2 ** 70
 
 VALUE_SETS = {
     'pickle': [(1, 'v'), (None, [1, {'x': 2.5}]), (float('inf'), b'\x00\xff'), (module_function, ('t', 1))],
@@ -169,6 +171,8 @@ def encodable(backend, value):
     if isinstance(value, Unencodable):
         return enc == 'mem'
     if enc == 'sql' and isinstance(value, (list, dict, tuple, set)):
+        return False
+    if enc == 'sql' and isinstance(value, int) and not isinstance(value, bool) and abs(value) >= 2 ** 63:
         return False
     return True
 
@@ -283,9 +287,13 @@ def model_apply(m, op, backend, other_m=None):
             keys = op[1]
             if len(op) > 2:
                 return ('ret', [m.pop(q, op[2]) for q in keys])
+            # without a default every requested key must be poppable *in sequence* (a key listed twice is gone the
+            # second time); a failing call removes nothing
+            trial = dict(m)
             for q in keys:
-                if q not in m:
+                if q not in trial:
                     raise KeyError(q)
+                del trial[q]
             return ('ret', [m.pop(q) for q in keys])
         if k == 'setdefault':
             if len(op) > 2 and not encodable(backend, op[2]) and op[1] not in m:
